@@ -435,12 +435,16 @@ type c02VPPlan struct {
 	Tamper string
 	// IatOnly (JWT only): the creation date is carried by the 'iat' claim and there is no 'nbf' (the node reads nbf, else iat)
 	IatOnly bool
-	Format  string // jwt_vp | ldp_vp
-	Creds   []*c02CredPlan
-	Aud     *string
-	Nonce   *string
-	Created time.Duration  // offset from "now"
-	Expires *time.Duration // offset from "now"; nil = absent
+	// AudList (JWT: 'aud' array with these members; JSON-LD: 'domain' = first member) overrides Aud when non-nil.
+	AudList []string
+	// AudString (JWT only): 'aud' is a plain JSON string instead of the one-element array the node's wallet emits.
+	AudString bool
+	Format    string // jwt_vp | ldp_vp
+	Creds     []*c02CredPlan
+	Aud       *string
+	Nonce     *string
+	Created   time.Duration  // offset from "now"
+	Expires   *time.Duration // offset from "now"; nil = absent
 }
 
 func (fx *c02Fixture) buildPresentation(x *h.Ctx, p *c02VPPlan, now time.Time) vc.VerifiablePresentation {
@@ -464,8 +468,11 @@ func (fx *c02Fixture) buildPresentation(x *h.Ctx, p *c02VPPlan, now time.Time) v
 		e := now.Add(*p.Expires)
 		opts.ProofOptions.Expires = &e
 	}
-	if p.IatOnly && p.Format == vc.JWTPresentationProofFormat && p.Tamper == "" {
-		return fx.buildIatOnlyJWTPresentation(x, p, creds, now)
+	if (p.IatOnly || p.AudString || p.AudList != nil) && p.Format == vc.JWTPresentationProofFormat && p.Tamper == "" {
+		return fx.buildRawJWTPresentation(x, p, creds, now)
+	}
+	if p.AudList != nil && len(p.AudList) > 0 {
+		opts.ProofOptions.Domain = c02Ptr(p.AudList[0])
 	}
 	w := fx.wallet
 	if p.Forge {
@@ -484,15 +491,15 @@ func (fx *c02Fixture) buildPresentation(x *h.Ctx, p *c02VPPlan, now time.Time) v
 	return *vp
 }
 
-// buildIatOnlyJWTPresentation mirrors the node wallet's buildJWTPresentation, except that the creation date travels in
-// 'iat' and 'nbf' is absent (the wallet itself always writes nbf).
-func (fx *c02Fixture) buildIatOnlyJWTPresentation(x *h.Ctx, p *c02VPPlan, creds []vc.VerifiableCredential, now time.Time) vc.VerifiablePresentation {
+// buildRawJWTPresentation mirrors the node wallet's buildJWTPresentation claim by claim, but serialises the claims
+// itself, so that it can express what the wallet never emits: creation date in 'iat' without 'nbf', 'aud' as a plain
+// string, 'aud' with several members.
+func (fx *c02Fixture) buildRawJWTPresentation(x *h.Ctx, p *c02VPPlan, creds []vc.VerifiableCredential, now time.Time) vc.VerifiablePresentation {
 	signer := c02Keys[p.Signer]
 	holderURI := signer.did.URI()
 	claims := map[string]interface{}{
 		"sub": signer.did.String(),
 		"jti": fmt.Sprintf("%s#vp-%d", signer.did.String(), now.UnixNano()),
-		"iat": now.Add(p.Created).Unix(),
 		"vp": vc.VerifiablePresentation{
 			Context:              []ssi.URI{vc.VCContextV1URI()},
 			Type:                 []ssi.URI{vc.VerifiablePresentationTypeV1URI()},
@@ -500,19 +507,36 @@ func (fx *c02Fixture) buildIatOnlyJWTPresentation(x *h.Ctx, p *c02VPPlan, creds 
 			VerifiableCredential: creds,
 		},
 	}
+	if p.IatOnly {
+		claims["iat"] = now.Add(p.Created).Unix()
+	} else {
+		claims["nbf"] = now.Add(p.Created).Unix()
+	}
 	if p.Nonce != nil {
 		claims["nonce"] = *p.Nonce
 	}
-	if p.Aud != nil {
+	switch {
+	case p.AudList != nil:
+		claims["aud"] = p.AudList
+	case p.Aud != nil && p.AudString:
 		claims["aud"] = *p.Aud
+	case p.Aud != nil:
+		claims["aud"] = []string{*p.Aud}
 	}
 	if p.Expires != nil {
 		claims["exp"] = now.Add(*p.Expires).Unix()
 	}
-	tok, err := c02Signer{forge: p.Forge}.SignJWT(c02Ctx(), claims, map[string]interface{}{"typ": "JWT"}, signer.kid)
-	x.NoErr(err, "sign iat-only jwt presentation")
-	vp, err := vc.ParseVerifiablePresentation(tok)
-	x.NoErr(err, "parse iat-only jwt presentation")
+	payload, err := json.Marshal(claims)
+	x.NoErr(err, "marshal jwt claims")
+	key, err := c02Signer{forge: p.Forge}.key(signer.kid)
+	x.NoErr(err, "signing key")
+	hdr := jws.NewHeaders()
+	_ = hdr.Set("typ", "JWT")
+	_ = hdr.Set("kid", signer.kid)
+	tok, err := jws.Sign(payload, jws.WithKey(jwa.ES256, key, jws.WithProtectedHeaders(hdr)))
+	x.NoErr(err, "sign raw jwt presentation")
+	vp, err := vc.ParseVerifiablePresentation(string(tok))
+	x.NoErr(err, "parse raw jwt presentation")
 	return *vp
 }
 
